@@ -443,3 +443,25 @@ def r04_6(ctx):
             ctx.violation(["drain-before-join"], why, site=ctx.site(d, bb))
         else:
             ctx.ok("try_recv in Drop is guarded by the return of ThreadPool::join", site=ctx.site(d, bb))
+
+
+@rule("C04", "R04.7", floor=1)
+def r04_7(ctx):
+    """a disconnected result channel is an error, never a normal loop exit"""
+    lib = ctx.lib
+    b = body(ctx, "txtpp_run_internal")
+    if not b:
+        return
+    dis = enum_edges(b, lib, "std::sync::mpsc::TryRecvError", lambda vs: vs == {"Disconnected"}) | \
+        enum_edges(b, lib, "std::sync::mpmc::TryRecvError", lambda vs: vs == {"Disconnected"})
+    if not dis:
+        ctx.anchor_missing("TryRecvError::Disconnected arm in the coordinator loop")
+        return
+    errs = set(err_sites(b))
+    reached = b.reachable_from_edges(dis, cut=out_edges(b, errs))
+    escapes = [bb for bb in reached if b.term(bb)["k"] == "return" or bb in ok_sites(b) or
+               (b.term(bb)["k"] == "call" and C.callee_name(b.term(bb)) in (ROLE["take_remaining"], "std::sync::mpsc::Receiver::<T>::try_recv"))]
+    if (errs & reached) and not escapes:
+        ctx.ok("Disconnected -> Err", site=ctx.site(b, min(errs & reached)))
+    else:
+        ctx.violation(["disconnected-not-error"], "a disconnected worker channel does not lead to an error return", site=ctx.site(b, escapes[0] if escapes else 0))
